@@ -208,6 +208,12 @@ def run(ctx, focus):
         p = vlib.run_harness(["sl", "-out", tr, "-seed", vlib.seed() + 5, "-n", 6000 if T else 1000, "-top", 3, "-big", "-free"], timeout=1800)
         validate(ctx, tr, json.loads(p.stdout.strip().splitlines()[-1]), "free-running goroutines", 3, fine=False)
         os.remove(tr)
+        if ctx.pid == "C14":
+            # iterators help unlinking marked nodes: the statistics must come out right when a reader, not a writer, wins the unlink
+            tr = os.path.join(ctx.wd, "sl_free_it.ndjson")
+            p = vlib.run_harness(["sl", "-out", tr, "-seed", vlib.seed() + 6, "-n", 5000 if T else 1000, "-top", 3, "-big", "-iters", 2, "-free"], timeout=1800)
+            validate(ctx, tr, json.loads(p.stdout.strip().splitlines()[-1]), "free-running goroutines with concurrent iterators", 3, fine=False)
+            os.remove(tr)
         # scale: hundreds of keys, 3-8 goroutines, no warm-up -- the maximum level grows concurrently, towers reach level 5-8
         tr = os.path.join(ctx.wd, "sl_wide.ndjson")
         p = vlib.run_harness(["sl", "-out", tr, "-seed", vlib.seed() + 9, "-n", 1200 if T else 120, "-top", 12, "-free", "-wide"], timeout=1800)
